@@ -4,6 +4,7 @@ import (
 	"encoding/json"
 	"regexp"
 	"sort"
+	"strings"
 	"time"
 
 	"github.com/0xrawsec/sod"
@@ -22,11 +23,18 @@ func regexMatchSet(f, pat string) []int {
 	out := []int{}
 	switch f {
 	case "Z":
+		lower := curRunner != nil && custom(curRunner.cfg.Cust)["Z"].Lower
+		if lower {
+			pat = strings.ToLower(pat) // the pattern is canonicalised like any probe
+		}
 		re, err := regexp.Compile(pat)
 		if err != nil {
 			return out
 		}
 		for i, s := range uniZ {
+			if lower && s != strings.ToLower(s) {
+				continue // only canonical values are ever stored
+			}
 			if re.MatchString(s) {
 				out = append(out, i)
 			}
